@@ -146,7 +146,7 @@ def make_md(sc: Dict[str, Any], prefix: str):
     elif eng == "xl":
         md = MD.XL_BOMD(damp=sc.get("damp", None), xl_bomd_params={"k": sc.get("k", 4)}, **kw)
     elif eng == "ksa":
-        xp = {"k": sc.get("k", 4), "max_rank": 2, "err_threshold": 0.0, "T_el": 1500}
+        xp = {"k": sc.get("k", 4), "max_rank": sc.get("max_rank", 2), "err_threshold": 0.0, "T_el": sc.get("T_el", 1500)}
         md = MD.KSA_XL_BOMD(damp=sc.get("damp", None), xl_bomd_params=xp, **kw)
     else:
         raise ValueError(eng)
